@@ -107,7 +107,8 @@ class Pool:
                                     'frame': spec['wcs']['frame']}, self.wcs) for d in spec['sky']]
         nrng = np.random.default_rng(spec['imseed'])
         cr = self.wcs.wcs.crpix
-        self.images = [nrng.normal(0, 1, (int(cr[1]) + 90, int(cr[0]) + 90)), nrng.integers(0, 9, (40, 50)).astype(np.int32),
+        # (the integer image is as large as the float one: masks of integer type - annuli, compounds - lie fully inside it)
+        self.images = [nrng.normal(0, 1, (int(cr[1]) + 90, int(cr[0]) + 90)), nrng.integers(1, 9, (int(cr[1]) + 90, int(cr[0]) + 90)).astype(np.int32),
                        nrng.normal(0, 1, (int(cr[1]) + 90, int(cr[0]) + 90)) * u.Jy]
         self.coords = [PixCoord(cr[0] + nrng.uniform(-80, 80, 30), cr[1] + nrng.uniform(-80, 80, 30)),
                        PixCoord(float(cr[0]) + 1.5, float(cr[1]) - 2.25),
@@ -318,6 +319,12 @@ def do_op(pool, op):
             return name, pix.rotate(pool.coords[1], prng.uniform(-200, 200) * u.deg)
         if name == 'copy':
             r = prng.choice([pix, sky])
+            if op['k'] % 3 == 0:
+                # the other ways to get "the same, with changes": the Meta constructors with a mapping plus keyword overrides
+                import regions as _regions
+                # (shallow like dict(mapping): only the inputs' own state is watched, the result is not edited)
+                return 'meta-ctor', (_regions.RegionMeta(r.meta, label='copy-with-override', include=0), _regions.RegionVisual(r.visual, color='magenta', linewidth=3),
+                              _regions.RegionMeta(dict(r.meta), comment='from a plain dict'), r.copy(meta=_regions.RegionMeta(r.meta, select=0)))
             return name, r.copy()
         if name == 'combine':
             a, b = pix, pool.pix[op['j'] % len(pool.pix)]
